@@ -7,21 +7,25 @@ Statements only; proofs cite `Lemmas/Bencode.lean`.
 namespace Bencode
 
 /-- Full statement, part 1 (round trip): decoding the encoding of any supported value —
-int64 integers, byte strings, lists, dictionaries with distinct keys, nested arbitrarily, of any
-size below 2^63 bytes, followed by arbitrary further bytes — yields exactly that value and
+int64 integers, byte strings, lists, dictionaries with distinct keys, nested up to the decoder's bound of
+`maxNesting` = 10000 containers (D21; the grammar decoder `dec`, with no bound, round-trips every nesting: second
+conjunct), of any size below 2^63 bytes, followed by arbitrary further bytes — yields exactly that value and
 leaves exactly those further bytes. Dictionary entry order is the order of the association
 list, so the theorem covers every emission order of a Go map. -/
 def C19_roundtrip_Statement : Prop :=
   ∀ (v : BVal) (rest : Bytes), WF v → (enc v ++ rest).length < 2^63 →
-    dec (2 * (enc v ++ rest).length + 2) (enc v ++ rest) = .ok (v, rest) ∧
-    unmarshal (enc v ++ rest) = .ok v
+    (depth v ≤ maxNesting →
+      decD maxNesting (2 * (enc v ++ rest).length + 2) (enc v ++ rest) = .ok (v, rest) ∧
+      unmarshal (enc v ++ rest) = .ok v) ∧
+    dec (2 * (enc v ++ rest).length + 2) (enc v ++ rest) = .ok (v, rest)
 
 theorem C19_roundtrip : C19_roundtrip_Statement := by
   intro v rest hv hsz
   have hc := (cost_le v).1
   have hlen : (enc v).length < 2^63 := by simp only [List.length_append] at hsz; omega
-  have h := dec_enc v hv (2 * (enc v ++ rest).length + 2) rest
-    (by simp only [List.length_append]; omega) hlen
+  have hfuel : cost v ≤ 2 * (enc v ++ rest).length + 2 := by simp only [List.length_append]; omega
+  refine ⟨fun hk => ?_, dec_enc v hv _ rest hfuel hlen⟩
+  have h := decD_enc v hv maxNesting (2 * (enc v ++ rest).length + 2) rest hfuel hk hlen
   refine ⟨h, ?_⟩
   unfold unmarshal
   rw [h]
@@ -33,18 +37,58 @@ bytes it asks the allocator for never exceed the bytes it actually consumed. -/
 def C19_safe_Statement : Prop :=
   ∀ (inp : Bytes),
     unmarshal inp ≠ .error .fuel ∧
-    ∀ v r, dec (2 * inp.length + 2) inp = .ok (v, r) → allocOf v + r.length ≤ inp.length
+    ∀ v r, decD maxNesting (2 * inp.length + 2) inp = .ok (v, r) → allocOf v + r.length ≤ inp.length
 
 theorem C19_safe : C19_safe_Statement := by
   intro inp
   have hf := (fuelOK (2 * inp.length + 2)).1 inp (by omega)
-  refine ⟨?_, fun v r h => (allocOK _).1 inp v r h⟩
+  refine ⟨?_, fun v r h => (allocOK _).1 inp v r (decD_sound _ _ _ _ h)⟩
   unfold unmarshal
-  cases h : dec (2 * inp.length + 2) inp with
+  cases h : decD maxNesting (2 * inp.length + 2) inp with
   | error e =>
-    have := hf.1; rw [h] at this
-    simpa using this
+    intro he
+    simp only [Except.error.injEq] at he
+    subst he
+    have := decD_fuel _ _ _ h
+    have h1 := hf.1
+    rw [this] at h1
+    simp at h1
   | ok vr => simp
+
+/-- **D21**: whatever `Unmarshal` returns nests at most `maxNesting` containers — the decoder, which recurses once per
+nesting level, never goes deeper; a value nested deeper than that is refused (an error, not a stack exhaustion) -/
+theorem C19_nesting_bounded (inp : Bytes) (v : BVal) (h : unmarshal inp = .ok v) : depth v ≤ maxNesting := by
+  unfold unmarshal at h
+  cases hd : decD maxNesting (2 * inp.length + 2) inp with
+  | error e => rw [hd] at h; cases h
+  | ok vr =>
+    obtain ⟨v', r⟩ := vr
+    rw [hd] at h
+    simp only [Except.ok.injEq] at h
+    subst h
+    exact decD_depth _ _ _ _ _ hd
+
+theorem C19_deeper_refused (v : BVal) (rest : Bytes) (hv : WF v) (hsz : (enc v ++ rest).length < 2^63)
+    (hdeep : maxNesting < depth v) : ∃ e, unmarshal (enc v ++ rest) = .error e := by
+  cases h : unmarshal (enc v ++ rest) with
+  | error e => exact ⟨e, rfl⟩
+  | ok v' =>
+    exfalso
+    have hb := C19_nesting_bounded _ _ h
+    unfold unmarshal at h
+    cases hd : decD maxNesting (2 * (enc v ++ rest).length + 2) (enc v ++ rest) with
+    | error e => rw [hd] at h; cases h
+    | ok vr =>
+      obtain ⟨v'', r⟩ := vr
+      rw [hd] at h
+      simp only [Except.ok.injEq] at h
+      subst h
+      have hs := decD_sound _ _ _ _ hd
+      have hg := (C19_roundtrip v rest hv hsz).2
+      rw [hg] at hs
+      simp only [Except.ok.injEq, Prod.mk.injEq] at hs
+      rw [← hs.1] at hb
+      omega
 
 /-- rejections the statement names: a negative length prefix is an error, not a crash,
 whatever follows and whatever the fuel -/
@@ -71,19 +115,19 @@ example : unmarshal [100, 49,58,97, 108, 105,45,53,101, 51,58,1,2,3, 101, 49,58,
     = .ok (.dict [([97], .list [.int (-5), .str [1,2,3]]), ([98], .dict [])]) := by
   rfl
 
-/-- **Streams**: the encodings of any values written back to back (followed by anything) are read back
-as exactly those values, in order, leaving exactly what followed -/
-theorem C19_stream (vs : List BVal) (hwf : ∀ v ∈ vs, WF v) (rest : Bytes)
+/-- **Streams**: the encodings of any values (nested within the bound) written back to back (followed by anything)
+are read back as exactly those values, in order, leaving exactly what followed -/
+theorem C19_stream (vs : List BVal) (hwf : ∀ v ∈ vs, WF v) (hd : ∀ v ∈ vs, depth v ≤ maxNesting) (rest : Bytes)
     (hsz : ((vs.map enc).flatten ++ rest).length < 2^63) :
     decStream vs.length ((vs.map enc).flatten ++ rest) = (vs, rest) := by
   induction vs with
   | nil => rfl
   | cons v tl ih =>
     simp only [List.map_cons, List.flatten_cons, List.append_assoc, List.length_cons] at hsz ⊢
-    have h := (C19_roundtrip v ((tl.map enc).flatten ++ rest) (hwf v (by simp)) hsz).1
+    have h := ((C19_roundtrip v ((tl.map enc).flatten ++ rest) (hwf v (by simp)) hsz).1 (hd v (by simp))).1
     simp only [decStream, h]
     have htl : ((tl.map enc).flatten ++ rest).length < 2^63 := by
       simp only [List.length_append] at hsz ⊢; omega
-    rw [ih (fun x hx => hwf x (by simp [hx])) htl]
+    rw [ih (fun x hx => hwf x (by simp [hx])) (fun x hx => hd x (by simp [hx])) htl]
 
 end Bencode
